@@ -645,6 +645,73 @@ fn bursts(eng: &mut Eng, thorough: bool) {
     eng.sample(|| "set-up [connect(0,1)], read all, then [write_state(1)] repeated to 256 operations without a read, read all".to_string());
 }
 
+/// Two connected pairs alive at once. Everything else in this file works on one set of terminals at
+/// a time; state remembered *outside* the terminals (a memo of the last mean keyed by something
+/// that is not unique per link) only shows when a second, similar-looking pair is read in between.
+fn two_pairs(eng: &mut Eng) {
+    let own: [(i64, f32); 2] = [(0, 1.0), (5, 4.0)];
+    let par_: [(i64, f32); 4] = [(0, 5.0), (0, 11.0), (5, 5.0), (7, -3.0)];
+    let st = |x: (i64, f32)| Datum::new(Time(x.0), State::new_raw(x.1, x.1 + 1.0, x.1 + 2.0));
+    // all orders of reading the four ends
+    let mut orders: Vec<Vec<usize>> = Vec::new();
+    for code in 0..256usize {
+        let o = [code & 3, (code >> 2) & 3, (code >> 4) & 3, (code >> 6) & 3];
+        let mut seen = [false; 4];
+        o.iter().for_each(|&i| seen[i] = true);
+        if seen.iter().all(|&b| b) {
+            orders.push(o.to_vec());
+        }
+    }
+    for o1 in 0..2 {
+        for p1 in 0..4 {
+            for o2 in 0..2 {
+                for p2 in 0..4 {
+                    for ord in &orders {
+                        eng.executions += 1;
+                        eng.states += 1;
+                        eng.transitions += 10;
+                        eng.checks += 4;
+                        if (o1, p1) != (o2, p2) {
+                            eng.nontrivial += 1;
+                        }
+                        let vals = [own[o1], par_[p1], own[o2], par_[p2]]; // a1, b1, a2, b2
+                        let r = guard(|| -> Result<(), String> {
+                            let ts: Vec<Term> = (0..4).map(|_| Terminal::new()).collect();
+                            connect(&ts[0], &ts[1]);
+                            connect(&ts[2], &ts[3]);
+                            for i in 0..4 {
+                                ts[i].borrow_mut().set(st(vals[i])).map_err(|e| format!("{:?}", e))?;
+                            }
+                            for &i in ord {
+                                let partner = i ^ 1;
+                                let (a, b) = (vals[i], vals[partner]);
+                                let m = (a.1 + b.1) / 2.0;
+                                let want = Datum::new(Time(a.0.max(b.0)), State::new_raw(m, m + 1.0, m + 2.0));
+                                let got = <Terminal<E> as Getter<State, E>>::get(&ts[i].borrow());
+                                if got != Ok(Some(want)) {
+                                    return Err(format!("terminal {} of [a1,b1,a2,b2] reads {:?} but the mean of its own and its partner's state is {:?}", i, got, want));
+                                }
+                                let d = <Terminal<E> as Getter<TerminalData, E>>::get(&ts[i].borrow());
+                                match d {
+                                    Ok(Some(dd)) if dd.value.state == Some(want.value) && dd.time == want.time => {}
+                                    other => return Err(format!("terminal {} combined read {:?}, expected state {:?}", i, other, want)),
+                                }
+                            }
+                            Ok(())
+                        });
+                        match r {
+                            Ok(Ok(())) => eng.outcome(h64(&(o1, p1, o2, p2, ord))),
+                            Ok(Err(m)) => eng.violation("terminals:two-pairs:wrong-read", 2, || format!("pairs (a1,b1) and (a2,b2) with states (time, position) {:?}, all set, then read in order {:?}: {}", vals, ord, m)),
+                            Err(m) => eng.violation("terminals:two-pairs:panic", 2, || format!("states {:?} order {:?}: {}", vals, ord, m)),
+                        }
+                    }
+                }
+            }
+        }
+    }
+    eng.sample(|| "pairs with equal own states (1,2,3)@0 and partners (5,6,7)@0 / (11,12,13)@0: a1 reads 3, then a2 must read 6".to_string());
+}
+
 pub fn run(ctx: &Ctx) -> Vec<Eng> {
     let max_n = if ctx.thorough { 8 } else { 6 };
     let mut e1 = Eng::new(
@@ -667,5 +734,11 @@ pub fn run(ctx: &Ctx) -> Vec<Eng> {
         &format!("4 set-ups x {} words x {} lengths", primitive_words(15, 2).len(), if ctx.thorough { 9 } else { 6 }),
     );
     bursts(&mut e3, ctx.thorough);
-    vec![e1, e2, e3]
+    let mut e4 = Eng::new(
+        "c09-two-pairs",
+        "two connected pairs alive at once: own state of each pair's first end from 2 options, partner state from 4 (equal and different timestamps and values between the pairs), all four ends written, then the four ends read in every order (state and combined read): each read = mean of that terminal's own and partner state with the newer time; non-trivial = the two pairs differ",
+        "8 x 8 pair configurations x 24 read orders",
+    );
+    two_pairs(&mut e4);
+    vec![e1, e2, e3, e4]
 }
